@@ -52,6 +52,13 @@ def holdsDisp (obsToks : List String) : Bool :=
 def runHolds (caseToks obsToks : List String) : String :=
   match caseToks with
   | "disp" :: _ => boolStr (holdsDisp obsToks)
+  | "retain" :: _ =>
+    -- live-heap growth per refused packet after warm-up: bounded by a small constant (see `retainBound`)
+    match obsToks with
+    | ["retain", "perop", n] => match n.toNat? with
+      | some k => boolStr (holdsRetain k)
+      | none => "false"
+    | _ => "false"
   | "loop" :: st :: _ =>
     match bytesOfHex st, parseLoopObs obsToks with
     | some bs, some o => boolStr (holdsLoop bs o)
